@@ -102,8 +102,9 @@ def _as1d_rest(a, r):
         return True
     vs = r.dataset.vars
     src = a.self.dataset.vars
-    return And(*[vs[v]._o is src[v]._o for v in ("depth", "latitude", "longitude", "time")],
-               set(vs) == {NAME_E, "a1", "b1", "a2", "b2", "depth", "latitude", "longitude", "time"},
+    return And(*[vs[v]._o is src[v]._o for v in ("depth", "latitude", "longitude")],
+               set(vs) == {NAME_E, "a1", "b1", "a2", "b2", "depth", "latitude", "longitude"},
+               r.dataset.coords["time"]._a is a.self.dataset.coords["time"]._a,
                r._o.cls.qualname == "FrequencySpectrum")
 
 
